@@ -1,13 +1,27 @@
-(* Proofs/HashMemoRun.v — C13, the hash memo along user code.
+(* Proofs/HashMemoRun.v — C13, the hash memo along user code, after the repair of
+   D15 (the replay tests "the path is claimed" before it compares the file).
 
    [HInv] (HashOk + "an entry keyed built is for a claimed path") holds in the
-   world a build starts user code in, and is preserved by [run pr] for every
-   program [pr] in which no build_file function rewrites its target after it
-   has (a) written it and then (b) called build_file or subbuild  ([wsafe]).
-   For programs outside that class the invariant — and C13 with it — fails:
-   HashMemoEx.v.  The typical shapes are inside the class: "call the
-   dependencies, then write the target (in any number of steps)", "write the
-   target, then call further builds", any interleaving of queries. *)
+   world a build starts user code in, and is preserved by [run pr] for EVERY
+   program [pr].  The one step that could break it — user code rewriting its
+   target while the memo holds an entry for the target keyed "built" — cannot
+   happen any more: while a path is claimed and in progress no routine makes an
+   entry for it (a query answers "no such file" before it looks at the disk, the
+   replay answers "not cached" before it looks at the disk), so entries keyed
+   "built" are made only when an output is finished, or by reads and replays of
+   finished outputs.
+
+   Consequences: the HASH comparison result recorded for a rebuilt output is the
+   hash of the file as its function left it; a recorded read(..., HASH) carries
+   the hash of the bytes the reader was given.
+
+   The only hypothesis on the world is [old_keys_ok]: the file table of the
+   previous build's cache is keyed by the paths of its records — true of the
+   empty cache and of every cache Cache.read_immutable returns.
+
+   (Before the repair the statement held only for programs that do not rewrite
+   their target after a nested build_file/subbuild call; the counterexample is
+   documented in HashMemoEx.v.) *)
 From Coq Require Import List String Ascii NArith ZArith Bool Arith Lia.
 From FB.Base Require Import PyVal Fs.
 From FB.Gen Require Import JsonUtilGen.
@@ -18,64 +32,13 @@ Import ListNotations.
 Local Open Scope list_scope.
 
 (* ================================================================== *)
-(** * 1. The class of programs                                          *)
+(** * 1. The state that goes with the target of the running function    *)
 (* ================================================================== *)
 
-(* where a function body stands with respect to its own target:
-   SN  there is no target (root function, subbuild function: Write is a no-op);
-   S0  the target has not been written yet;
-   S1  it has been written, no build_file/subbuild call since the first write;
-   S2  it has been written and a build_file/subbuild call was made afterwards *)
-Inductive wst := SN | S0 | S1 | S2.
-
-Definition after_call (st : wst) : wst := match st with S1 => S2 | s => s end.
-Definition after_write (st : wst) : wst := match st with SN => SN | _ => S1 end.
-
-Inductive wsafe : wst -> prog -> Prop :=
-| WS_Ret : forall st v, wsafe st (Ret v)
-| WS_Raise : forall st e, wsafe st (Raise e)
-| WS_Ask : forall st s q (k : Prog.outcome -> prog), (forall r, wsafe st (k r)) -> wsafe st (Ask s q k)
-| WS_Write : forall st c k, st <> S2 -> wsafe (after_write st) k -> wsafe st (Write c k)
-| WS_BuildFile : forall st (s : bool) p c f a kw (fn : path -> pyval -> pyval -> prog) (k : Prog.outcome -> prog),
-    (forall p' sa skw, wsafe S0 (fn p' sa skw)) ->
-    (forall r, wsafe (if s then st else after_call st) (k r)) ->
-    wsafe st (BuildFile s p c f a kw fn k)
-| WS_Subbuild : forall st (s : bool) f a kw (fn : pyval -> pyval -> prog) (k : Prog.outcome -> prog),
-    (forall sa skw, wsafe SN (fn sa skw)) ->
-    (forall r, wsafe (if s then st else after_call st) (k r)) ->
-    wsafe st (Subbuild s f a kw fn k).
-
-(* the state of the world that goes with a state of the body *)
-Definition TS (st : wst) (target : option path) (w : world) : Prop :=
-  match target with
-  | None => True
-  | Some t =>
-      st <> SN /\ pending (w_new w) t /\
-      (st = S0 -> isfile (w_fs w) t = false) /\
-      (st <> S2 -> NoT t w)
-  end.
-
-(* ================================================================== *)
-(** * 2. Moving [TS] along the steps of [run]                           *)
-(* ================================================================== *)
-
-Lemma TS_query : forall st target w w', hx true w w' -> TS st target w -> TS st target w'.
-Proof.
-  intros st [t|] w w' H; [|trivial]. intros (A & B & C & D).
-  pose proof H as (_ & F & N & _). unfold TS. rewrite F. unfold pending in *. rewrite N.
-  split; [exact A|]. split; [exact B|]. split; [exact C|].
-  intros X h E. rewrite (hx_strict_pending w w' t H B) in E. exact (D X h E).
-Qed.
-
-Lemma TS_set_log : forall st target l w, TS st target w -> TS st target (set_log l w).
-Proof. intros st [t|] l w H; [exact H | trivial]. Qed.
-
-Lemma TS_log_answer : forall st target q r w, TS st target w -> TS st target (log_answer q r w).
-Proof.
-  intros st target q r w H. unfold log_answer.
-  repeat match goal with |- context [match ?y with _ => _ end] => destruct y end;
-    first [exact H | apply TS_set_log; exact H].
-Qed.
+(* the target is claimed and in progress, and the memo shows no entry for it
+   keyed "built" *)
+Definition TSA (target : option path) (w : world) : Prop :=
+  forall t, target = Some t -> pending (w_new w) t /\ NoT t w.
 
 Lemma HInv_set_log : forall l w, HInv w -> HInv (set_log l w).
 Proof. intros l w H. exact (brel_set_log l w H). Qed.
@@ -87,76 +50,145 @@ Proof.
     first [exact H | apply HInv_set_log; exact H].
 Qed.
 
-(* a nested call: [xrel] for the target of the caller *)
-Lemma TS_call : forall st target w w',
-  (forall t, target = Some t -> xrel t w w') -> TS st target w -> TS (after_call st) target w'.
+Lemma w_old_log_answer : forall q r w, w_old (log_answer q r w) = w_old w.
 Proof.
-  intros st [t|] w w' H; [|trivial]. intros (A & B & C & D).
-  destruct (H t eq_refl B) as [B' K]. unfold TS.
-  split; [destruct st; cbn; congruence|]. split; [exact B'|].
-  destruct st; cbn [after_call]; try congruence.
-  - (* S0 *) destruct (K (C eq_refl)) as [G E]. split; [intros _; exact G|].
-    intros _ h X. rewrite E in X. exact (D ltac:(discriminate) h X).
-  - (* S1 -> S2 *) split; [discriminate | congruence].
-  - (* S2 *) split; [discriminate | congruence].
+  intros q r w. unfold log_answer.
+  repeat match goal with |- context [match ?y with _ => _ end] => destruct y end; reflexivity.
+Qed.
+
+Lemma TSA_log_answer : forall target q r w, TSA target w -> TSA target (log_answer q r w).
+Proof.
+  intros target q r w H t Et. destruct (H t Et) as [A B]. unfold log_answer.
+  repeat match goal with |- context [match ?y with _ => _ end] => destruct y end; split; assumption.
+Qed.
+
+Lemma TSA_query : forall target w w', hx true w w' -> TSA target w -> TSA target w'.
+Proof.
+  intros target w w' H Ht t Et. destruct (Ht t Et) as [A B]. pose proof H as (_ & _ & N & _).
+  unfold pending in *. rewrite N. split; [exact A|].
+  intros h E. rewrite (hx_strict_pending w w' t H A) in E. exact (B h E).
+Qed.
+
+(* a nested call: [prel] for the target of the caller *)
+Lemma TSA_call : forall target w w', old_keys_ok (w_old w) ->
+  (forall t, target = Some t -> prel t w w') -> TSA target w -> TSA target w'.
+Proof.
+  intros target w w' Hk H Ht t Et. destruct (Ht t Et) as [A B].
+  destruct (H t Et) as [_ K]. destruct (K Hk A) as [A' E]. split; [exact A'|].
+  intros h X. rewrite E in X. exact (B h X).
 Qed.
 
 (* ================================================================== *)
-(** * 3. The theorem                                                    *)
+(** * 2. build_file and subbuild, with the previous cache carried along  *)
 (* ================================================================== *)
 
-Theorem run_HInv : forall st pr, wsafe st pr ->
-  forall target subs w w' r, HInv w -> TS st target w -> run pr target subs w = (w', r) -> HInv w'.
+Lemma m_build_file_HInv : forall p c f a kw (fn : path -> pyval -> pyval -> body) w w' r,
+  (forall sa skw w2 w3 r0, HInv w2 -> old_keys_ok (w_old w2) -> pending (w_new w2) p -> NoT p w2 ->
+                           fn p sa skw w2 = (w3, r0) -> HInv w3) ->
+  m_build_file p c f a kw fn w = (w', r) -> HInv w -> old_keys_ok (w_old w) -> HInv w'.
 Proof.
-  intros st pr Hs.
-  induction Hs as [st v | st e | st s q k Hk IHk | st c k Hst Hk IHk
-                   | st s p c f a kw fn k Hfn IHfn Hk IHk | st s f a kw fn k Hfn IHfn Hk IHk];
-    intros target subs w w' r Hi Ht H; cbn [run] in H.
+  intros p c f a kw fn w w' r Hfn H Hi Hk. rewrite m_build_file_unfold in H.
+  destruct (sanitize a) as [sa|]; [|inversion H; subst; exact Hi].
+  destruct (sanitize kw) as [skw|]; [|inversion H; subst; exact Hi].
+  destruct (bf_setup p c f sa skw w) as [w1 [[[o|[e o]]|]|e]] eqn:Hs;
+    try (inversion H; subst; exact (bf_setup_B _ _ _ _ _ _ _ _ Hs Hi)).
+  destruct (bf_setup_None _ _ _ _ _ _ _ Hs Hi) as (A & B & C & D).
+  pose proof (bf_setup_O _ _ _ _ _ _ _ _ Hs) as O1. unfold osame in O1.
+  unfold bf_rebuild in H.
+  destruct (fn p sa skw (bf_invoke_world p f sa skw w1)) as [w3 [res subs]] eqn:Ef.
+  assert (Hi3 : HInv w3).
+  { eapply Hfn; [| | | | exact Ef]; unfold bf_invoke_world.
+    - apply HInv_set_log. exact A.
+    - cbn [w_old set_log]. rewrite O1. exact Hk.
+    - exact B.
+    - exact D. }
+  exact (bf_finish_B _ _ _ _ _ _ _ _ _ _ H Hi3).
+Qed.
+
+Lemma m_subbuild_HInv : forall f a kw (fn : pyval -> pyval -> body) w w' r,
+  (forall sa skw w2 w3 r0, HInv w2 -> old_keys_ok (w_old w2) -> fn sa skw w2 = (w3, r0) -> HInv w3) ->
+  m_subbuild f a kw fn w = (w', r) -> HInv w -> old_keys_ok (w_old w) -> HInv w'.
+Proof.
+  intros f a kw fn w w' r Hfn H Hi Hk. rewrite m_subbuild_unfold in H.
+  destruct (sanitize a) as [sa|]; [|inversion H; subst; exact Hi].
+  destruct (sanitize kw) as [skw|]; [|inversion H; subst; exact Hi].
+  destruct (sb_setup f sa skw w) as [w1 [[[o|[e o]]|]|e]] eqn:Hs;
+    try (inversion H; subst; exact (sb_setup_B _ _ _ _ _ _ Hs Hi)).
+  pose proof (sb_setup_B _ _ _ _ _ _ Hs Hi) as A.
+  pose proof (sb_setup_O _ _ _ _ _ _ Hs) as O1. unfold osame in O1.
+  unfold sb_rebuild in H.
+  destruct (fn sa skw (sb_invoke_world f sa skw w1)) as [w3 [res subs]] eqn:Ef.
+  assert (Hi3 : HInv w3).
+  { eapply Hfn; [| | exact Ef]; unfold sb_invoke_world.
+    - apply HInv_set_log. exact A.
+    - cbn [w_old set_log]. rewrite O1. exact Hk. }
+  exact (sb_finish_B _ _ _ _ _ _ _ _ H Hi3).
+Qed.
+
+(* ================================================================== *)
+(** * 3. The theorem: every program                                     *)
+(* ================================================================== *)
+
+Theorem run_HInv : forall pr target subs w w' r,
+  HInv w -> old_keys_ok (w_old w) -> TSA target w -> run pr target subs w = (w', r) -> HInv w'.
+Proof.
+  induction pr as [v | e | stale q k IH | c k IH | stale p c f a kw fn IHfn k IHk | stale f a kw fn IHfn k IHk];
+    intros target subs w w' r Hi Hk Ht H; cbn [run] in H.
   - inversion H; subst. exact Hi.
   - inversion H; subst. exact Hi.
-  - destruct s; [eapply IHk; eauto|].
+  - destruct stale; [eapply IH; eauto|].
     destruct (m_query q w) as [w1 [r1 o]] eqn:E.
-    pose proof (m_query_strict q w w1 _ E) as X.
-    apply IHk in H; [exact H | |].
+    pose proof (m_query_strict q w w1 _ E) as X. pose proof X as (O & _).
+    apply IH in H; [exact H | | |].
     + apply HInv_log_answer. exact (hx_HInv true w w1 X Hi).
-    + apply TS_log_answer. exact (TS_query st target w w1 X Ht).
-  - destruct target as [t|]; [|exact (IHk None subs w w' r Hi I H)].
-    destruct Ht as (A & B & C & D).
+    + rewrite w_old_log_answer, O. exact Hk.
+    + apply TSA_log_answer. exact (TSA_query target w w1 X Ht).
+  - destruct target as [t|]; [|refine (IH None subs w w' r Hi Hk _ H); intros t Et; discriminate Et].
+    destruct (Ht t eq_refl) as [A B].
     destruct (write_file (w_fs w) t c None (N.succ (w_clock w)) (w_nextid w)) as [fs'|e] eqn:E.
-    + apply IHk in H; [exact H | |].
+    + apply IH in H; [exact H | | |].
       * eapply write_keeps_HInv; eauto.
-        intros h X. rewrite (pending_has_file _ _ B) in X. exfalso. exact (D Hst h X).
-      * unfold TS. cbn [w_new w_fs w_hash set_clock set_fs].
-        split; [destruct st; cbn; congruence|]. split; [exact B|].
-        split; [destruct st; cbn; congruence|].
-        intros _ h X. exact (D Hst h X).
+        intros h X. rewrite (pending_has_file _ _ A) in X. exfalso. exact (B h X).
+      * exact Hk.
+      * intros t' Et'. inversion Et'; subst t'. split; [exact A | exact B].
     + inversion H; subst. exact Hi.
-  - destruct s; [eapply IHk; eauto|].
+  - destruct stale; [eapply IHk; eauto|].
     match type of H with (let '(_, _) := ?X in _) = _ => destruct X as [w1 [r1 o]] eqn:E end.
-    apply IHk in H; [exact H | |].
-    + refine (m_build_file_B p c f a kw _ _ w w1 _ E Hi).
-      intros sa skw w2 w3 r0 Hi2 P2 F2 N2 R2. cbv beta in R2.
-      eapply (IHfn p sa skw (Some p) [] w2 w3 r0 Hi2); [|exact R2].
-      unfold TS. split; [discriminate|]. split; [exact P2|]. split; [intros _; exact F2 | intros _; exact N2].
-    + eapply TS_call; [|exact Ht]. intros t Et.
-      refine (m_build_file_X t p c f a kw _ _ w w1 _ E).
-      intros sa skw Hne. cbv beta. apply run_X. intro X. inversion X. contradiction.
-  - destruct s; [eapply IHk; eauto|].
+    assert (O : w_old w1 = w_old w).
+    { refine (m_build_file_O p c f a kw _ _ w w1 _ E). intros sa skw. apply run_O. }
+    apply IHk in H; [exact H | | |].
+    + refine (m_build_file_HInv p c f a kw _ w w1 _ _ E Hi Hk).
+      intros sa skw w2 w3 r0 Hi2 Hk2 P2 N2 R2. cbv beta in R2.
+      refine (IHfn p sa skw (Some p) [] w2 w3 r0 Hi2 Hk2 _ R2).
+      intros t Et. inversion Et; subst t. split; assumption.
+    + rewrite O. exact Hk.
+    + apply (TSA_call target w w1 Hk); [|exact Ht]. intros t Et.
+      refine (m_build_file_P t p c f a kw _ _ _ w w1 _ E).
+      * intros sa skw Hne. cbv beta. apply run_P. intro X. inversion X. contradiction.
+      * intros sa skw. apply run_O.
+  - destruct stale; [eapply IHk; eauto|].
     match type of H with (let '(_, _) := ?X in _) = _ => destruct X as [w1 [r1 o]] eqn:E end.
-    apply IHk in H; [exact H | |].
-    + refine (m_subbuild_B f a kw _ _ w w1 _ E Hi).
-      intros sa skw w2 w3 r0 Hi2 R2. cbv beta in R2.
-      eapply (IHfn sa skw None [] w2 w3 r0 Hi2); [exact I | exact R2].
-    + eapply TS_call; [|exact Ht]. intros t Et.
-      refine (m_subbuild_X t f a kw _ _ w w1 _ E).
-      intros sa skw. cbv beta. apply run_X. discriminate.
+    assert (O : w_old w1 = w_old w).
+    { refine (m_subbuild_O f a kw _ _ w w1 _ E). intros sa skw. apply run_O. }
+    apply IHk in H; [exact H | | |].
+    + refine (m_subbuild_HInv f a kw _ w w1 _ _ E Hi Hk).
+      intros sa skw w2 w3 r0 Hi2 Hk2 R2. cbv beta in R2.
+      refine (IHfn sa skw None [] w2 w3 r0 Hi2 Hk2 _ R2). intros t Et. discriminate Et.
+    + rewrite O. exact Hk.
+    + apply (TSA_call target w w1 Hk); [|exact Ht]. intros t Et.
+      refine (m_subbuild_P t f a kw _ _ w w1 _ E).
+      intros sa skw. cbv beta. apply run_P. discriminate.
 Qed.
+
+(* in particular plain HashOk, the hypothesis of C13_memo_transparent *)
+Corollary run_HashOk : forall pr target subs w w' r,
+  HInv w -> old_keys_ok (w_old w) -> TSA target w -> run pr target subs w = (w', r) -> HashOk w'.
+Proof. intros. exact (proj1 (run_HInv pr target subs w w' r H H0 H1 H2)). Qed.
 
 (* ================================================================== *)
 (** * 4. From the start of the build                                    *)
 (* ================================================================== *)
 
-(* m_build resets the memo: the world a build is accepted in satisfies HInv *)
 Theorem start_world_HInv : forall w cf old nm svers, HInv (start_world w cf old nm svers).
 Proof.
   intros. split.
@@ -164,27 +196,91 @@ Proof.
   - intros p h H. cbn [w_hash start_world hash_get] in H. discriminate H.
 Qed.
 
-(* ... and so does every world up to the return of the root function: after the
-   directory of the cache file has been made, and after user code *)
+(* the previous cache of a build is the empty cache or what read_immutable returned *)
+Lemma old_keys_ok_empty : forall nm fv, old_keys_ok (empty_cache nm fv).
+Proof. intros nm fv p p' cm f a k subs r cr ra sf H. discriminate H. Qed.
+
+Definition fkeys_ok (l : list (path * option op)) : Prop :=
+  forall p p' cm f a k subs r cr ra sf,
+    files_get l p = Some (Some (OBuildFile p' cm f a k subs r cr ra sf)) -> p' = p.
+
+Lemma fold_register_parsed_keys : forall subs,
+  Forall (fun o => forall c, fkeys_ok (c_files c) -> fkeys_ok (c_files (register_parsed c o))) subs ->
+  forall c, fkeys_ok (c_files c) -> fkeys_ok (c_files (fold_left register_parsed subs c)).
+Proof.
+  intros subs HF. induction HF as [|s rest Hs HF IH]; intros c Hc; cbn [fold_left]; [exact Hc|].
+  apply IH, Hs, Hc.
+Qed.
+
+Lemma register_parsed_keys : forall o c, fkeys_ok (c_files c) -> fkeys_ok (c_files (register_parsed c o)).
+Proof.
+  induction o as [q r e | p c0 f a k subs r cr ra sf IH | f a k subs r ra sf IH] using op_ind';
+    intros c Hc; cbn [register_parsed].
+  - exact Hc.
+  - pose proof (fold_register_parsed_keys subs IH c Hc) as H1. destruct sf; [exact H1|].
+    cbn [cache_with c_files]. intros q p' cm f' a' k' subs' r' cr' ra' sf' H.
+    rewrite files_get_set in H. destruct (path_eqb p q) eqn:E.
+    + apply path_eqb_eq in E. inversion H; subst. reflexivity.
+    + eapply H1; eauto.
+  - pose proof (fold_register_parsed_keys subs IH c Hc) as H1. destruct sf; exact H1.
+Qed.
+
+Theorem read_keys_ok : forall j c, cache_of_json j = ReadOk c -> old_keys_ok c.
+Proof.
+  intros j c H. unfold cache_of_json in H.
+  repeat match type of H with context [match ?x with _ => _ end] => destruct x; try discriminate H end.
+  inversion H; subst c; clear H.
+  match goal with |- old_keys_ok (fold_left register_parsed ?ops ?c0) =>
+    assert (K : fkeys_ok (c_files (fold_left register_parsed ops c0))) end.
+  { apply fold_register_parsed_keys.
+    - apply Forall_forall. intros o _. apply register_parsed_keys.
+    - intros zp zp' zcm zf za zk zsubs zr zcr zra zsf X. discriminate X. }
+  intros zp zp' zcm zf za zk zsubs zr zcr zra zsf X. unfold cache_get_file in X.
+  match type of X with match ?y with _ => _ end = _ => destruct y as [[zo|]|] eqn:E end; try discriminate X.
+  inversion X; subst zo. eapply K; eauto.
+Qed.
+
+(* every world from the acceptance of the build to the return of the root function *)
 Theorem build_user_code_HInv : forall cf old nm svers w root w1 ccd w2 res,
-  wsafe SN root ->
+  old_keys_ok old ->
   make_dirs (dirname cf) (start_world w cf old nm svers) = (w1, inl ccd) ->
   run root None [] (set_log (LInvoke "<root>" None PNone PNone :: w_log w1) w1) = (w2, res) ->
   HInv w1 /\ HInv w2.
 Proof.
-  intros cf old nm svers w root w1 ccd w2 res Hs Hm Hr.
+  intros cf old nm svers w root w1 ccd w2 res Hk Hm Hr.
   assert (H1 : HInv w1).
   { refine (fstep_brel _ _ (make_dirs_fs _ _ _ _ Hm) _). apply start_world_HInv. }
   split; [exact H1|].
-  eapply (run_HInv SN root Hs None [] _ w2 res); [|exact I|exact Hr].
-  apply HInv_set_log. exact H1.
+  refine (run_HInv root None [] _ w2 res _ _ _ Hr).
+  - apply HInv_set_log. exact H1.
+  - cbn [w_old set_log]. destruct (make_dirs_fs _ _ _ _ Hm) as (O & _). rewrite O. exact Hk.
+  - intros t Et. discriminate Et.
+Qed.
+
+(* the two ways m_build accepts a build *)
+Corollary build_from_cache_file_HInv : forall cf f nm svers w root old w1 ccd w2 res,
+  cache_of_json (f_json f) = ReadOk old ->
+  make_dirs (dirname cf) (start_world w cf old nm svers) = (w1, inl ccd) ->
+  run root None [] (set_log (LInvoke "<root>" None PNone PNone :: w_log w1) w1) = (w2, res) ->
+  HInv w2.
+Proof.
+  intros cf f nm svers w root old w1 ccd w2 res Hj Hm Hr.
+  exact (proj2 (build_user_code_HInv cf old nm svers w root w1 ccd w2 res (read_keys_ok _ _ Hj) Hm Hr)).
+Qed.
+Corollary build_from_scratch_HInv : forall cf nm svers w root w1 ccd w2 res,
+  make_dirs (dirname cf) (start_world w cf (empty_cache nm svers) nm svers) = (w1, inl ccd) ->
+  run root None [] (set_log (LInvoke "<root>" None PNone PNone :: w_log w1) w1) = (w2, res) ->
+  HInv w2.
+Proof.
+  intros cf nm svers w root w1 ccd w2 res Hm Hr.
+  exact (proj2 (build_user_code_HInv cf _ nm svers w root w1 ccd w2 res (old_keys_ok_empty nm svers) Hm Hr)).
 Qed.
 
 (* ================================================================== *)
-(** * 5. What it buys: recorded hashes are those of the outputs         *)
+(** * 5. What it buys                                                   *)
 (* ================================================================== *)
 
-(* under the invariant, the comparison result recorded for an output that was
+(* (a) under the invariant, the comparison result recorded for an output that was
    just rebuilt is the hash of the file as its function left it (and the file
    is untouched by the bookkeeping that follows) *)
 Theorem rebuilt_output_hash : forall p f sa skw res subs w3 w' v o,
@@ -207,23 +303,87 @@ Proof.
       inversion Hh; reflexivity.
 Qed.
 
-(* ... in particular for every output a program of the class rebuilds *)
-Theorem wsafe_rebuilt_output_hash : forall p f sa skw (fn : path -> pyval -> pyval -> prog) w w1 w' v o,
-  (forall p' a k, wsafe S0 (fn p' a k)) ->
-  HInv w ->
+(* ... for every output every program rebuilds *)
+Theorem every_rebuilt_output_hash : forall p f sa skw (fn : path -> pyval -> pyval -> prog) w w1 w' v o,
+  HInv w -> old_keys_ok (w_old w) ->
   bf_setup p HASH f sa skw w = (w1, inl None) ->
   bf_rebuild p HASH f sa skw (fun p' a k w0 => run (fn p' a k) (Some p') [] w0) w1 = (w', (inl v, Some o)) ->
   exists fl subs, lookup (w_fs w') p = Some (NFile fl) /\
                   o = OBuildFile p HASH f sa skw subs v (hash_of (f_bytes fl)) false false.
 Proof.
-  intros p f sa skw fn w w1 w' v o Hs Hi Hset H.
+  intros p f sa skw fn w w1 w' v o Hi Hk Hset H.
   destruct (bf_setup_None _ _ _ _ _ _ _ Hset Hi) as (A & B & C & D).
+  pose proof (bf_setup_O _ _ _ _ _ _ _ _ Hset) as O1. unfold osame in O1.
   unfold bf_rebuild in H. cbv beta in H.
   destruct (run (fn p sa skw) (Some p) [] (bf_invoke_world p f sa skw w1)) as [w3 [res subs]] eqn:Er.
   assert (H3 : HInv w3).
-  { eapply (run_HInv S0 _ (Hs p sa skw) (Some p) [] _ w3 _); [| |exact Er]; unfold bf_invoke_world.
+  { refine (run_HInv _ (Some p) [] _ w3 _ _ _ _ Er); unfold bf_invoke_world.
     - apply HInv_set_log. exact A.
-    - unfold TS. split; [discriminate|]. split; [exact B|]. split; [intros _; exact C | intros _; exact D]. }
+    - cbn [w_old set_log]. rewrite O1. exact Hk.
+    - intros t Et. inversion Et; subst t. split; [exact B | exact D]. }
   destruct (rebuilt_output_hash _ _ _ _ _ _ _ _ _ _ (proj1 H3) H) as (fl & _ & L & ->).
   exists fl, subs. split; [exact L | reflexivity].
+Qed.
+
+(* (b) a read with HASH comparison that succeeds: the record carries the hash of
+   the file on disk, and the reader is handed exactly those bytes *)
+Theorem read_records_hash_of_bytes_seen : forall p w w1 v o,
+  HashOk w -> m_query (QRead p HASH) w = (w1, (inl v, o)) ->
+  exists fl, lookup (w_fs w) p = Some (NFile fl) /\ lookup (w_fs w1) p = Some (NFile fl) /\
+             v = hash_of (f_bytes fl) /\
+             o = Some (OSimple (QRead p HASH) (hash_of (f_bytes fl)) None) /\
+             user_answer (QRead p HASH) (inl v) w1 = inl (PStr (f_bytes fl)).
+Proof.
+  intros p w w1 v o Hok H. unfold m_query in H.
+  destruct (exec_query (QRead p HASH) None w) as [w2 [v0|e]] eqn:E.
+  2:{ destruct e; try discriminate H. }
+  inversion H; subst w2 v0 o; clear H.
+  pose proof (exec_query_strict (QRead p HASH) w w1 _ E) as (_ & F1 & _).
+  cbn [exec_query] in E. unfold m_read in E.
+  apply bind_inv in E. destruct E as [(wa & nr & E1 & E) | (e & _ & E)]; [|discriminate E].
+  apply (is_file_no_read_pending_cf _ _ _ _ _ (cfo_ok_None _)) in E1. destruct E1 as [-> _].
+  apply bind_inv in E. destruct E as [(wb & u & E2 & E) | (e & _ & E)]; [|discriminate E].
+  assert (S2 : hsame w wb) by (refine ((_ : pres HSPO _) w wb _ E2); destruct nr as [[|]|]; pres_auto).
+  destruct S2 as (_ & F2 & N2 & H2).
+  assert (Hokb : HashOk wb).
+  { intros q h b f Hg Hb Hl. rewrite H2 in Hg. rewrite N2 in Hb. rewrite F2 in Hl. eapply Hok; eauto. }
+  apply bind_inv in E. destruct E as [(wc & res & E3 & E) | (e & _ & E)]; [|discriminate E].
+  apply bind_inv in E. destruct E as [(wd & u' & E4 & E) | (e & _ & E)]; [|discriminate E].
+  inversion E; subst wd res; clear E.
+  apply catch_inv in E3. destruct E3 as [(a & E3 & Ea) | (we & e & E3 & E5)].
+  - inversion Ea; subst a. cbn [file_comparison_result] in E3.
+    destruct (file_hash_spec p wb wc _ Hokb E3) as (_ & F3 & _ & S).
+    rewrite F2 in S. destruct (lookup (w_fs w) p) as [[fl|]|] eqn:El.
+    + inversion S; subst v. exists fl. split; [reflexivity|]. split; [rewrite F1; exact El|].
+      split; [reflexivity|]. split; [reflexivity|].
+      unfold user_answer, canon_err. rewrite F1, El. reflexivity.
+    + discriminate S.
+    + destruct S as [e S]. discriminate S.
+  - exfalso. destruct (is_os_class XFileNotFound e || is_os_class XNotADirectory e); [discriminate E5|].
+    destruct (is_os_class XIsADirectory e); [|discriminate E5].
+    apply bind_inv in E5. destruct E5 as [(wf & d & _ & E5) | (e' & _ & E5)]; [|discriminate E5].
+    destruct d; discriminate E5.
+Qed.
+
+(* ... at every such read of every program: the step [run] takes *)
+Theorem run_read_step : forall p (k : Prog.outcome -> prog) target subs w w' r,
+  HashOk w -> run (Ask false (QRead p HASH) k) target subs w = (w', r) ->
+  (exists fl w1,
+     lookup (w_fs w) p = Some (NFile fl) /\ w_fs w1 = w_fs w /\
+     run (k (inl (PStr (f_bytes fl)))) target
+         (subs ++ [OSimple (QRead p HASH) (hash_of (f_bytes fl)) None]) w1 = (w', r)) \/
+  (exists e w1 o, w_fs w1 = w_fs w /\ run (k (inr e)) target (app_op subs o) w1 = (w', r)).
+Proof.
+  intros p k target subs w w' r Hok H. cbn [run] in H.
+  destruct (m_query (QRead p HASH) w) as [w1 [r1 o]] eqn:E.
+  pose proof (m_query_strict _ w w1 _ E) as (_ & F1 & _).
+  destruct r1 as [v|e].
+  - left. destruct (read_records_hash_of_bytes_seen p w w1 v o Hok E) as (fl & L & L1 & -> & -> & U).
+    rewrite U in H. exists fl. eexists. split; [exact L|]. split; [|exact H].
+    unfold log_answer. cbn [w_fs set_log]. exact F1.
+  - right. set (r' := user_answer (QRead p HASH) (inr e) w1) in *.
+    assert (X : exists e', r' = inr e').
+    { unfold r', user_answer, canon_err. destruct e; eauto. cbn [query_path]. destruct (path_ok p); eauto. }
+    destruct X as [e' X]. rewrite X in H. exists e'. eexists. exists o. split; [|exact H].
+    unfold log_answer. destruct e'; cbn [w_fs set_log]; exact F1.
 Qed.
